@@ -1161,3 +1161,208 @@ func init() {
 		r.Check(wit == nil, "Redo:chunk-loop-progresses-or-stops", "when no complete record was found in a chunk Redo stops reading", "with the buffer offset assumed 0 the next ReadLog is reached (same offset again: endless loop on a torn tail): "+w.DescribeWitness(redo, wit))
 	})
 }
+
+func init() {
+	reg("C02-R5", "Undo follows every loser's chain to its end: Redo records, for every record, lsnMapping[record LSN] = (offset given to ReadLog) + (offset of the record inside the chunk) and activeTxn[txn] = record LSN; Undo reads the log at lsnMapping[lsn], its inner loop variable is replaced by the record's PrevLSN on every iteration and the loop ends only at InvalidLSN; the outer loop ranges over activeTxn", func(w *World, r *Report) {
+		redo := w.Fn("recovery/log_recovery", "LogRecovery", "Redo")
+		undo := w.Fn("recovery/log_recovery", "LogRecovery", "Undo")
+		mapFld := w.Field("recovery/log_recovery", "LogRecovery", "lsnMapping")
+		actFld := w.Field("recovery/log_recovery", "LogRecovery", "activeTxn")
+		lsnFld := w.Field("recovery", "LogRecord", "Lsn")
+		prevFld := w.Field("recovery", "LogRecord", "PrevLSN")
+		txnFld := w.Field("recovery", "LogRecord", "TxnID")
+		deser := w.MethodObj("recovery/log_recovery", "LogRecovery", "DeserializeLogRecord")
+		readLog := w.family(w.MethodObj("storage/disk", "DiskManager", "ReadLog"))
+		isReadLog := func(in ssa.Instruction) (ssa.CallInstruction, bool) {
+			c, ok := in.(ssa.CallInstruction)
+			if !ok || CalleeObj(c) == nil || !(readLog[CalleeObj(c)] || readLog[CalleeObj(c).Origin()]) {
+				return nil, false
+			}
+			return c, true
+		}
+		// Redo
+		var rlOff, bufOff ssa.Value
+		for _, b := range redo.Blocks {
+			for _, in := range b.Instrs {
+				if c, ok := isReadLog(in); ok {
+					args := c.Common().Args
+					rlOff = args[len(args)-2]
+				}
+				if c, ok := in.(*ssa.Call); ok && CalleeObj(c) == deser {
+					if sl, ok := c.Call.Args[1].(*ssa.Slice); ok && sl.Low != nil {
+						bufOff = sl.Low
+					}
+				}
+			}
+		}
+		nMap, nAct := 0, 0
+		for _, b := range redo.Blocks {
+			for _, in := range b.Instrs {
+				mu, ok := in.(*ssa.MapUpdate)
+				if !ok {
+					continue
+				}
+				switch {
+				case fieldLoadOf(mu.Map, mapFld):
+					nMap++
+					keyOK := DependsOn(mu.Key, func(x ssa.Value) bool { return fieldLoadOf(x, lsnFld) })
+					valOK := false
+					if rlOff != nil && bufOff != nil {
+						valOK = linForm(mu.Value, nil, 0).Equal(linForm(rlOff, nil, 0).Sub(LinForm{0, map[string]int64{}}.Sub(linForm(bufOff, nil, 0))))
+					}
+					r.Check(keyOK && valOK, "Redo:lsnMapping-is-record-start"+itoaOrd(nMap), "lsnMapping maps a record's LSN to the file offset at which the record starts", fmt.Sprintf("map update at %s: key from record LSN: %v; value = ReadLog offset + offset inside the chunk: %v", w.InstrPos(in), keyOK, valOK))
+				case fieldLoadOf(mu.Map, actFld):
+					nAct++
+					keyOK := DependsOn(mu.Key, func(x ssa.Value) bool { return fieldLoadOf(x, txnFld) })
+					valOK := DependsOn(mu.Value, func(x ssa.Value) bool { return fieldLoadOf(x, lsnFld) })
+					r.Check(keyOK && valOK, "Redo:activeTxn-holds-latest-lsn"+itoaOrd(nAct), "activeTxn maps a transaction to the LSN of its latest record", "map update at "+w.InstrPos(in)+" does not store record.Lsn under record.TxnID")
+				}
+			}
+		}
+		r.Floor("lsnMapping updates in Redo", nMap, 1)
+		r.Floor("activeTxn updates in Redo", nAct, 1)
+		// the unconditional registration precedes the type dispatch: every record reaches both updates
+		typeFld := w.Field("recovery", "LogRecord", "LogRecordType")
+		isMapUpd := func(f *types.Var) func(ssa.Instruction) bool {
+			return func(in ssa.Instruction) bool {
+				mu, ok := in.(*ssa.MapUpdate)
+				return ok && fieldLoadOf(mu.Map, f)
+			}
+		}
+		var dsites []ssa.Instruction
+		for _, s := range sitesCalling(redo, deser) {
+			dsites = append(dsites, s)
+		}
+		isTypeTest := func(in ssa.Instruction) bool {
+			i, ok := in.(*ssa.If)
+			if !ok {
+				return false
+			}
+			return DependsOn(i.Cond, func(x ssa.Value) bool { return fieldLoadOf(x, typeFld) })
+		}
+		deserTrue := CutWhen(IsCallTo(deser), false)
+		for _, f := range []*types.Var{mapFld, actFld} {
+			wit := (&PathQ{Fn: redo, Cut: []EdgeCut{deserTrue}, Avoid: isMapUpd(f), Target: isTypeTest}).FromAfter(dsites)
+			r.Check(wit == nil, "Redo:"+f.Name()+"-registered-for-every-record", "every decoded record is registered in "+f.Name()+" before the dispatch on its type", "path from DeserializeLogRecord to the type dispatch without the update: "+w.DescribeWitness(redo, wit))
+		}
+		// Undo
+		nRL := 0
+		for _, b := range undo.Blocks {
+			for _, in := range b.Instrs {
+				c, ok := isReadLog(in)
+				if !ok {
+					continue
+				}
+				nRL++
+				args := c.Common().Args
+				off := args[len(args)-2]
+				fromMap := DependsOn(off, func(x ssa.Value) bool {
+					l, ok := x.(*ssa.Lookup)
+					return ok && fieldLoadOf(l.X, mapFld)
+				})
+				r.Check(fromMap, "Undo:reads-the-log-at-lsnMapping"+itoaOrd(nRL), "Undo reads the record of an LSN at the offset Redo stored for it", "ReadLog offset at "+w.InstrPos(in)+" does not come from lsnMapping")
+			}
+		}
+		r.Floor("ReadLog calls in Undo", nRL, 1)
+		// inner loop: the phi that feeds the lsnMapping lookup has a back edge from record.PrevLSN and the exit test compares it with InvalidLSN
+		var lsnPhi *ssa.Phi
+		for _, b := range undo.Blocks {
+			for _, in := range b.Instrs {
+				if l, ok := in.(*ssa.Lookup); ok && fieldLoadOf(l.X, mapFld) {
+					if p, ok := stripConv(l.Index).(*ssa.Phi); ok {
+						lsnPhi = p
+					}
+				}
+			}
+		}
+		if lsnPhi == nil {
+			r.Bad("Undo:chain-walk", "the LSN looked up in lsnMapping is the loop variable of the chain walk", "the index of the lsnMapping lookup is not a loop variable")
+		} else {
+			fromPrev, fromActive := false, false
+			for _, e := range lsnPhi.Edges {
+				if DependsOn(e, func(x ssa.Value) bool { return fieldLoadOf(x, prevFld) }) {
+					fromPrev = true
+				}
+				if DependsOn(e, func(x ssa.Value) bool {
+					if rg, ok := x.(*ssa.Range); ok {
+						return fieldLoadOf(rg.X, actFld)
+					}
+					return false
+				}) {
+					fromActive = true
+				}
+			}
+			r.Check(fromPrev, "Undo:chain-advances-to-PrevLSN", "the chain walk continues with the record's PrevLSN", "the loop variable at "+w.Pos(lsnPhi.Pos())+" never takes record.PrevLSN")
+			r.Check(fromActive, "Undo:chain-starts-at-activeTxn", "the chain walk starts from every entry of activeTxn", "the loop variable at "+w.Pos(lsnPhi.Pos())+" is not initialised from a range over activeTxn")
+			// exit test
+			invalid, _ := constant.Int64Val(w.Const("common", "InvalidLSN").Val())
+			exitOK := false
+			for _, b := range undo.Blocks {
+				i := blockIf(b)
+				if i == nil {
+					continue
+				}
+				base, _ := condBase(i.Cond)
+				bo, ok := base.(*ssa.BinOp)
+				if !ok || (bo.Op != token.NEQ && bo.Op != token.EQL) {
+					continue
+				}
+				isPhi := func(x ssa.Value) bool { return stripConv(x) == ssa.Value(lsnPhi) }
+				isInv := func(x ssa.Value) bool {
+					cv, ok := constOf(x)
+					if !ok {
+						return false
+					}
+					iv, ok := constant.Int64Val(constant.ToInt(cv))
+					return ok && iv == invalid
+				}
+				if (isPhi(bo.X) && isInv(bo.Y)) || (isPhi(bo.Y) && isInv(bo.X)) {
+					exitOK = true
+				}
+			}
+			r.Check(exitOK, "Undo:chain-ends-at-InvalidLSN", "the chain walk ends when the LSN is InvalidLSN (and only then)", "no test of the loop variable against InvalidLSN")
+			// no other exit from the inner loop: from the loop header, a path to the outer loop's Next without the exit test … the only
+			// exits of the inner loop are the header's test (break/return statements inside would be additional exits)
+			hdr := lsnPhi.Block()
+			exits := 0
+			for _, b := range undo.Blocks {
+				if !hdr.Dominates(b) || b == hdr {
+					continue
+				}
+				if !reachesBlock(b, hdr) {
+					continue // not in the loop
+				}
+				for _, s := range b.Succs {
+					if !reachesBlock(s, hdr) && len(s.Instrs) > 0 {
+						if _, isPanic := s.Instrs[len(s.Instrs)-1].(*ssa.Panic); !isPanic {
+							exits++
+						}
+					}
+				}
+			}
+			r.Check(exits == 0, "Undo:chain-walk-has-no-early-exit", "the chain walk cannot be left before InvalidLSN (no break / return inside it)", fmt.Sprintf("%d edges leave the inner loop from its body", exits))
+		}
+	})
+}
+
+func itoaOrd(n int) string { return "#" + itoa(n) }
+
+// reachesBlock: to is reachable from from (forward CFG edges).
+func reachesBlock(from, to *ssa.BasicBlock) bool {
+	seen := map[*ssa.BasicBlock]bool{}
+	var st []*ssa.BasicBlock
+	st = append(st, from)
+	for len(st) > 0 {
+		b := st[len(st)-1]
+		st = st[:len(st)-1]
+		if b == to {
+			return true
+		}
+		if seen[b] {
+			continue
+		}
+		seen[b] = true
+		st = append(st, b.Succs...)
+	}
+	return false
+}
